@@ -676,12 +676,12 @@ func (t *c32LockedTarget) final() (int, int, int) {
 // ---- case generation
 
 type c32Case struct {
-	Kind    string // single | sharded | sharded-hooked | deep | deep-hooked | locked
-	KeyType string // string | int
-	Shards  []uint64
-	IntKeys []int
-	Progs   [][]c32Op
-	Bits    []bool
+	Kind     string // single | sharded | sharded-hooked | deep | deep-hooked | locked
+	KeyType  string // string | int
+	Shards   []uint64
+	IntKeys  []int
+	Progs    [][]c32Op
+	Bits     []bool
 	HasClose bool
 }
 
